@@ -53,14 +53,16 @@ int main(int argc, char** argv) {
     }
     std::string p = len ? "/" + v.substr(1) : v;
     if (pass == 2) p[p.size() - 1] = '/';
-    if (len) api->set_property(s, "k", v.c_str());
+    // length 0: a property / config value that was set and then set to the empty string (the getters report "no value")
+    if (!len) api->set_property(s, "k", "x");
+    api->set_property(s, "k", v.c_str());
     if (len) api->select_schema(s, v.c_str());
     api->config_set_string(&cfg, "k", v.c_str());
     rime::path pp(p); dep.shared_data_dir = pp; dep.user_data_dir = pp; dep.prebuilt_data_dir = pp;
     dep.staging_dir = pp; dep.sync_dir = pp;
     std::string sync = dep.user_data_sync_dir().string();
     for (size_t n = 1; n <= maxn; ++n) {
-      if (len) grid_call("RimeGetProperty", v, n, [&](char* b, size_t k) { return api->get_property(s, "k", b, k); });
+      grid_call("RimeGetProperty", v, n, [&](char* b, size_t k) { return api->get_property(s, "k", b, k); });
       if (len) grid_call("RimeGetCurrentSchema", v, n, [&](char* b, size_t k) { return api->get_current_schema(s, b, k); });
       grid_call("RimeConfigGetString", v, n, [&](char* b, size_t k) { return api->config_get_string(&cfg, "k", b, k); });
       grid_call("RimeGetUserDataSyncDir", sync, n, [&](char* b, size_t k) { api->get_user_data_sync_dir(b, k); return 1; });
